@@ -21,6 +21,7 @@ KLASS_PY: Dict[str, Tuple[str, str]] = {
     "MoneyCls": ("quantity.money", "MoneyMeta"),
     "Term": ("quantity.term", "Term"),
     "Registry": ("quantity.registry", "DefinedItemRegistry"),
+    "TypeRegistry": ("quantity.registry", "DefinedItemRegistry"),
     "SIPrefix": ("quantity.si_prefixes", "SIPrefix"),
     "Converter": ("quantity.converter", "Converter"),
     "TableConverter": ("quantity.converter", "TableConverter"),
@@ -73,6 +74,10 @@ DICT_KINDS: Dict[str, Tuple[Any, Any]] = {
 }
 
 # list kinds: name -> element klass
+# list kinds held as (length, Int -> Obj array) instead of a z3 sequence:
+# only indexing and append are used on them, arrays are far cheaper to reason
+# about than sequences
+ARRAY_LISTS = {"items", "buckets", "cls_items", "cls_buckets"}
 LIST_KINDS = {"conv": "AnyConv", "items": "Unit", "buckets": "List:items",
               "cls_items": "QtyCls", "cls_buckets": "List:cls_items"}
 
@@ -109,8 +114,11 @@ def make_schema() -> Schema:
     s.declare("Registry", "_unique_items", TBool())
     s.declare("Registry", "_item_def_map", TObj("Dict:den"))
     s.declare("Registry", "_item_list", TObj("List:buckets"))
+
     # generic containers
     s.declare_raw("List.$seq", z3.SeqSort(Obj))
+    s.declare_raw("AList.$arr", z3.ArraySort(z3.IntSort(), Obj))
+    s.declare_raw("AList.$len", z3.IntSort())
     for kind, (ks, vty) in DICT_KINDS.items():
         s.declare_raw(f"Dict:{kind}.$dom", z3.ArraySort(ks, z3.BoolSort()))
         from .sym import sorts_of, suffixes_of
@@ -161,8 +169,11 @@ GLOBAL_VARS: Dict[Tuple[str, str], V] = {
 }
 # class-level variables
 CLASS_VARS: Dict[Tuple[str, str], V] = {
-    ("QuantityMeta", "_registry"): VObj(G_TYPEREG, "Registry"),
+    ("QuantityMeta", "_registry"): VObj(G_TYPEREG, "TypeRegistry"),
 }
+
+
+FIELD_HOOKS: Dict[Tuple[str, str], Any] = {}
 
 
 def to_key(kind: str, v: V, interp) -> Any:
